@@ -66,7 +66,7 @@ def model_rows(rows, cols, dtypes):
     return [[to_model_value(r[c], dtypes[c]) for c in cols] for r in rows]
 
 
-def frame(rows, columns, dtypes, ts_unit="ns"):
+def frame(rows, columns, dtypes, ts_unit="ns", index=None):
     """rows: list of dicts column -> python value (None = NaN / NaT; ts as int ns); ts_unit: the
     resolution of the timestamp columns (pandas 3 produces datetime64[us] / [s] from strings and ranges)"""
     import numpy as np
@@ -86,4 +86,9 @@ def frame(rows, columns, dtypes, ts_unit="ns"):
             if ts_unit != "ns":
                 col = col.astype("datetime64[%s]" % ts_unit)
             data[c] = col
-    return pd.DataFrame(data, columns=columns)
+    df = pd.DataFrame(data, columns=columns)
+    if index == "dup":
+        df.index = [i // 2 for i in range(len(rows))]          # repeated labels (pd.concat of chunks)
+    elif index == "rev":
+        df.index = list(range(len(rows) - 1, -1, -1))
+    return df
